@@ -1,5 +1,5 @@
 (* CorrScan.v — correspondence records for the scan engine: one RunOnce of the real controller. *)
-From Esc Require Export Scan.
+From Esc Require Export SpecScan.
 
 Record obs_group := { og_name : id; og_calls : list call; og_state : gstate; og_desired : Z; og_tries : Z }.
 Record scan_case := { sc_snap : snapshot; sc_obs : list obs_group; sc_out : Z }.
@@ -46,3 +46,55 @@ Definition tags_scan (cs : list scan_case) : list Z :=
   map (fun k => count_occ_b (fun t => t =? k) all) [1;2;3;4;5;6;7;8;9;10;11;12;13;14;15;16;17;18;19;20;21;22].
 
 Definition explain_scan (c : scan_case) := (model_groups (sc_snap c), (sc_obs c, sc_out c)).
+
+(* ---------- per-property projections of the journal (what each property's correspondence compares) ---------- *)
+Definition pi_removal (l : list call) : list call := filter is_removal l.
+Definition pi_writes (l : list call) : list call := filter call_is_write l.
+Definition pi_k8s (l : list call) : list call := filter (fun c => match c with CK _ => true | _ => false end) l.
+Definition pi_updates (l : list call) : list call := filter (fun c => match c with CK (KUpdate _ _ _) => true | _ => false end) l.
+Definition pi_cloud (l : list call) : list call :=
+  filter (fun c => is_cloud_increase c || match c with CA (ATermInAsg _ _ _) => true | _ => false end) l.
+Definition pi_decision (l : list call) : list call :=
+  filter (fun c => is_cloud_increase c || match c with CK (KUpdate _ _ _) => true | _ => false end) l.
+Definition pi_reuse (l : list call) : list call :=
+  filter (fun c => is_cloud_increase c || match c with CK (KGet _ _) | CK (KUpdate _ _ _) | CA (ATermInAsg _ _ _) => true | _ => false end) l.
+Definition pi_none (l : list call) : list call := [].
+
+(* agreement on the projected journal and outcome; the in-memory state is compared only where a property is about it *)
+Definition obs_group_eqb' (with_state : bool) (proj : list call -> list call) (a b : obs_group) : bool :=
+  (og_name a =? og_name b) && list_eqb call_eqb (proj (og_calls a)) (proj (og_calls b))
+  && (if with_state then gstate_eqb (og_state a) (og_state b) && (og_desired a =? og_desired b) && (og_tries a =? og_tries b) else true).
+
+Definition case_agrees' (with_state : bool) (proj : list call -> list call) (c : scan_case) : bool :=
+  let '(mg, mo) := model_groups (sc_snap c) in
+  list_eqb (obs_group_eqb' with_state proj) mg (sc_obs c) && (mo =? sc_out c).
+
+Definition mism (with_state : bool) (proj : list call -> list call) (cs : list scan_case) : list nat :=
+  indices_where (fun c => negb (case_agrees' with_state proj c)) cs 0.
+
+Definition obs_calls (c : scan_case) : list (id * list call) := map (fun g => (og_name g, og_calls g)) (sc_obs c).
+
+Definition pfail (f : gctx -> list call -> bool) (cs : list scan_case) : list nat :=
+  indices_where (fun c => negb (for_groups f (sc_snap c) (obs_calls c))) cs 0.
+
+Definition mismatches_C01 := mism false pi_removal.   Definition propfail_C01 := pfail check_C01_group.
+Definition mismatches_C03 := mism false pi_updates.   Definition propfail_C03 := pfail check_C03_group.
+Definition mismatches_C04 := mism false pi_cloud.     Definition propfail_C04 := pfail check_C04_group.
+Definition mismatches_C06 := mism false pi_decision.  Definition propfail_C06 := pfail check_C06_group.
+Definition mismatches_C07 := mism false pi_reuse.     Definition propfail_C07 := pfail check_C07_group.
+Definition mismatches_C08 := mism false pi_k8s.       Definition propfail_C08 := pfail check_C08_group.
+Definition mismatches_C09 := mism false pi_writes.    Definition propfail_C09 := pfail check_C09_group.
+Definition mismatches_C10 := mism false pi_removal.   Definition propfail_C10 := pfail check_C10_group.
+Definition mismatches_C11 := mism true pi_writes.     Definition propfail_C11 := pfail check_C11_group.
+Definition mismatches_C12 := mism false full.         Definition propfail_C12 := pfail check_C12_group.
+Definition mismatches_C15 := mism false pi_updates.   Definition propfail_C15 := pfail check_C15_group.
+Definition mismatches_C19 := mism false pi_removal.   Definition propfail_C19 := pfail check_C19_group.
+Definition mismatches_C02 := mism true pi_writes.
+Definition propfail_C02 (cs : list scan_case) : list nat :=
+  indices_where (fun c => negb (forallb (fun g => match find_group (sc_snap c) (og_name g) with
+                                                 | Some gi => check_C02_group (mk_ctx (sc_snap c) gi) (og_calls g) (og_state g)
+                                                 | None => false end) (sc_obs c))) cs 0.
+Definition mismatches_C20 := mism true pi_none.
+(* C20 on an observed scan: no panic; a scan that returned nil processed every configured group *)
+Definition propfail_C20 (cs : list scan_case) : list nat :=
+  indices_where (fun c => (sc_out c =? 4) || ((sc_out c =? 0) && negb (Nat.eqb (length (sc_obs c)) (length (s_groups (sc_snap c)))))) cs 0.
